@@ -124,11 +124,14 @@ int main(int argc, char **argv) {
     std::vector<Combo> combos;
     std::vector<int> ks = {0};
     if (A.has("ks")) { ks.clear(); for (auto &t : vr::split(A.get("ks"), ',')) ks.push_back(atoi(t.c_str())); }
-    for (int alg = 0; alg < 3; ++alg) for (int v = 0; v < 2; ++v) for (int pc = 0; pc < 2; ++pc) for (int cores : {1, 2, 3}) for (int k : ks) combos.push_back({alg, v, pc, cores, k});
+    for (int alg = 0; alg < 6; ++alg) for (int v = 0; v < 2; ++v) for (int pc = 0; pc < 2; ++pc) for (int cores : {1, 2, 3}) for (int k : ks) combos.push_back({alg, v, pc, cores, k});
     auto args_of = [&](const Combo &c) {
         std::vector<std::string> a = {"demo"};
         if (c.alg == 1) { a.push_back("--signed=false"); a.push_back("--fvstrees=true"); }
         if (c.alg == 2) { a.push_back("--signed=false"); a.push_back("--isotrees=true"); }
+        if (c.alg == 3) { a.push_back("--signed=false"); }                                   // neither tree option named: the demos fall through to the isometric-trees branch
+        if (c.alg == 4) { a.push_back("--signed=false"); a.push_back("--fvstrees=false"); a.push_back("--isotrees=false"); }
+        if (c.alg == 5) { a.push_back("--signed=true"); a.push_back("--fvstrees=true"); }
         a.push_back("--parallel=true");
         if (c.verbose) a.push_back("--verbose");
         if (c.printcycles) a.push_back("--printcycles");
